@@ -188,6 +188,42 @@ func Hoist(doc M, rng *rand.Rand, p float64) M {
 	return out
 }
 
+// InlineOneOfMembers replaces the $ref members of every oneOf WITHOUT
+// discriminator in components.schemas by inline copies of their targets
+// (object members only). Returns false when the document has no such oneOf.
+func InlineOneOfMembers(doc M) (M, bool) {
+	out := CloneM(doc)
+	comps, _ := out["components"].(M)
+	schemas, _ := comps["schemas"].(M)
+	changed := false
+	for _, name := range sortedKeys(schemas) {
+		s, ok := schemas[name].(M)
+		if !ok {
+			continue
+		}
+		members, ok := s["oneOf"].(L)
+		if !ok || s["discriminator"] != nil {
+			continue
+		}
+		for i, m := range members {
+			mm, ok := m.(M)
+			if !ok {
+				continue
+			}
+			ref, ok := mm["$ref"].(string)
+			if !ok {
+				continue
+			}
+			target, ok := derefOnce(out, ref)
+			if tm, isM := target.(M); ok && isM && tm["type"] == "object" {
+				members[i] = Clone(tm)
+				changed = true
+			}
+		}
+	}
+	return out, changed
+}
+
 // RefPairs builds the C18 corpus: for every base spec its inline-all,
 // hoist-all and a seeded partial rewrite. Aux["pair"] names the base.
 func RefPairs(seed int64, n int) []Case {
@@ -249,6 +285,9 @@ func RefPairs(seed int64, n int) []Case {
 		mk("orig", b.Spec)
 		mk("inline-params-headers-bodies-responses", InlineAll(b.Spec, map[string]bool{"parameters": true, "headers": true, "requestBodies": true, "responses": true}))
 		mk("inline-all", InlineAll(b.Spec, map[string]bool{"parameters": true, "headers": true, "requestBodies": true, "responses": true, "schemas": true}))
+		if v, ok := InlineOneOfMembers(b.Spec); ok {
+			mk("inline-oneof-members", v)
+		}
 		mk("hoist-all", Hoist(b.Spec, rng, 1))
 		mk("hoist-partial", Hoist(b.Spec, rng, 0.5))
 	}
